@@ -188,6 +188,10 @@ func vrfH_C04rewrite() {
 			continue
 		}
 		n++
+		if vrfParam("renderedkeys", 0) != 0 {
+			// the key as flattenAnonPointer passes it: the URL-escaped rendering of the entry's $ref
+			key = sr.Ref.String()
+		}
 		err := replace.RewriteSchemaToRef(doc, key, newRef)
 		vrfAssert("rewrite-succeeds-on-every-analyzer-key", err == nil)
 	}
